@@ -754,8 +754,9 @@ func cmdC20(args []string) {
 	sum := Summary{}
 	for _, g := range gens {
 		for _, c := range genCases(g) {
+			c := c
 			c.Origin = g.Kind
-			c20Run(out, c)
+			deadline(out, caseDeadline, func() { c20Run(out, c) })
 			out.tr++
 			sum.Inc(g.Kind, 1)
 		}
